@@ -3,6 +3,7 @@
 //! usage: vp <check> [--tier quick|thorough] [--seed N] [--shard i/n] [--out file] [--replay file]
 
 mod c01;
+mod c02;
 mod c04;
 mod c05;
 mod c06;
@@ -79,6 +80,7 @@ fn main() {
             }
         },
         "c01" => c01::run(&mut rep, &tier, seed, shard, replay.as_deref()),
+        "c02" => c02::run(&mut rep, &tier, seed, shard, replay.as_deref()),
         "c04" => c04::run(&mut rep, &tier, seed, shard, replay.as_deref()),
         "c05" => c05::run(&mut rep, &tier, seed, shard, replay.as_deref()),
         "c06" => c06::run(&mut rep, &tier, seed, shard, replay.as_deref()),
